@@ -74,7 +74,7 @@ Proof. unfold h_reopen. apply reopen_bal. Qed.
 
 Theorem r_open_bal root path fl o : bal (Rfd o) o (r_open fz cfg pfuel gh sysctl_ps rs root path fl).
 Proof.
-  unfold r_open. destruct (intersects fl RESOLVER_OPEN_REFUSED); [constructor; hnf; reflexivity|].
+  unfold r_open. destruct (_ || _); [constructor; hnf; reflexivity|].
   destruct (rs_kernel rs); [apply k_open_bal|].
   unfold bindR. eapply bal_bind; [apply Hres|]. intros [h|e] o1 Ho1; [|constructor; exact Ho1]. hnf in Ho1.
   assert (Hcl : forall e, bal (@Rfd ekind o) o1 (close h ;;; Ret (Err e))).
